@@ -12,7 +12,9 @@ func c19Doc(i int, symbolic bool) any {
 	if vTier() > 0 || symbolic {
 		c = ndScalarNN()
 	}
-	switch ndChoice(9) {
+	switch ndChoice(10) {
+	case 9: // a $merge map with sibling keys inside a list-valued key
+		return map[string]any{"tmpl": map[string]any{"port": c}, "services": []any{map[string]any{"name": "web", "$merge": "tmpl"}, []any{map[string]any{"$merge": "tmpl", "n": 1}}}}
 	case 7: // a forward cross-document reference into a subtree that itself holds a $merge
 		return map[string]any{"h": map[string]any{"$replace": []any{map[string]any{"id": 2}, "tmpl"}}, "k": c}
 	case 8: // the document such a reference points into
@@ -36,7 +38,9 @@ func c19Doc(i int, symbolic bool) any {
 
 // c19Layer: an upper layer for document kind k.
 func c19Layer() any {
-	switch ndChoice(4) {
+	switch ndChoice(5) {
+	case 4:
+		return map[string]any{"tmpl": map[string]any{"port": "moved"}}
 	case 3:
 		return map[string]any{"base": map[string]any{"x": "rebased"}}
 	case 0:
